@@ -134,6 +134,21 @@ impl Vtx {
             });
         }
 
+        // Size field comes from the file; it should not be trusted to allocate
+        // gigabytes (16 MiB of register data is more than 6 hours at 50 Hz)
+        const MAX_DECOMPRESSED_FRAMES_SIZE: u32 = 16 * 1024 * 1024;
+        if decompressed_frames_size > MAX_DECOMPRESSED_FRAMES_SIZE {
+            return Err(VtxError::InvalidHeader {
+                message: "Decompressed frames data size is too big",
+            });
+        }
+
+        if player_frequency == 0 {
+            return Err(VtxError::InvalidHeader {
+                message: "Invalid player frequency",
+            });
+        }
+
         let strings_start = reader.stream_position()?;
 
         const READ_STRING_BUFFER_SIZE: usize = 256;
@@ -197,11 +212,21 @@ impl Vtx {
         let author = strings.pop().unwrap();
         let title = strings.pop().unwrap();
 
-        let mut transposed_frame_data = vec![0u8; decompressed_frames_size as usize];
+        // Decode by chunks, so that memory is allocated only for data which is really
+        // present in the file rather than for whatever the header declares
+        const DECODE_CHUNK_SIZE: usize = 64 * 1024;
+        let mut transposed_frame_data = Vec::new();
         let mut decoder = Lh5Decoder::new(reader);
-        decoder
-            .fill_buffer(&mut transposed_frame_data)
-            .map_err(|_| VtxError::DecompressFailure)?;
+        let mut remaining = decompressed_frames_size as usize;
+        while remaining > 0 {
+            let chunk_size = remaining.min(DECODE_CHUNK_SIZE);
+            let decoded = transposed_frame_data.len();
+            transposed_frame_data.resize(decoded + chunk_size, 0);
+            decoder
+                .fill_buffer(&mut transposed_frame_data[decoded..])
+                .map_err(|_| VtxError::DecompressFailure)?;
+            remaining -= chunk_size;
+        }
 
         // VTX originally stores pre-transposed data, therefore we need to tarnspose it
         let frames_count = transposed_frame_data.len() / AY_REGISTER_COUNT;
